@@ -83,7 +83,7 @@ func singularPaths(m protoreflect.Message, p []int, out *[][]int) {
 
 func msgAt(m protoreflect.Message, p []int) protoreflect.Message {
 	for _, n := range p {
-		fd := m.Descriptor().Fields().ByNumber(protoreflect.FieldNumber(n))
+		fd := fieldByNumber(m.Descriptor(), protoreflect.FieldNumber(n))
 		m = m.Get(fd).Message()
 	}
 	return m
@@ -99,18 +99,23 @@ func streamHistory(r *hx.Rng, cfs []*cfile, bs *builtSet) {
 	for _, bv := range bs.variants {
 		google := bv.V.Runtime() == "google"
 		type hcase struct {
-			c      *cfile
-			md     protoreflect.MessageDescriptor
-			toks   []string
+			c       *cfile
+			md      protoreflect.MessageDescriptor
+			toks    []string
 			staleAt int // index of the first assignment made while a size was cached for an enclosing message (-1: never)
 			qAt     int // index from which results are outside the model's scope (staleAt, or protobuf-go sizing a -0.0: G6)
-			kinds  []byte
-			negz   []bool // the contents hold a proto3 -0.0 (finding G6) when op j runs
+			kinds   []byte
+			negz    []bool   // the contents hold a proto3 -0.0 (finding G6) when op j runs
+			ext     []string // class suffix of the extension finding that applies to the contents when op j runs
 		}
 		var cases []hcase
 		var reqs []string
 		for _, c := range cfs {
 			if !bv.OK[c.F.Base] {
+				continue
+			}
+			if !google && fileHasExt(c) {
+				// the driver assigns fields through protoreflect, which cannot reach gogo's extension store
 				continue
 			}
 			for _, md := range c.messages() {
@@ -142,8 +147,13 @@ func streamHistory(r *hx.Rng, cfs []*cfile, bs *builtSet) {
 								break
 							}
 							target := msgAt(h.mirror, p)
-							fds := target.Descriptor().Fields()
-							fd := fds.Get(r.Intn(fds.Len()))
+							fds := allFields(target.Descriptor())
+							if len(fds) == 0 {
+								h.visitSize(h.mirror, nil)
+								tok, kind = "Z", 'Z'
+								break
+							}
+							fd := fds[r.Intn(len(fds))]
 							tmp := dynamicpb.NewMessage(target.Descriptor())
 							if r.Intn(6) != 0 {
 								setRandom(r, tmp, fd, 2)
@@ -208,6 +218,9 @@ func streamHistory(r *hx.Rng, cfs []*cfile, bs *builtSet) {
 						}
 						nz := hasNegZero(md, canonical(h.mirror))
 						hc.negz = append(hc.negz, nz)
+						setCtx(bv, md, canonical(h.mirror))
+						hc.ext = append(hc.ext, failCtx.suffix)
+						failCtx.suffix = ""
 						if hc.qAt < 0 && (hc.staleAt >= 0 || (nz && tok == "RS" && google)) {
 							hc.qAt = i
 						}
@@ -265,6 +278,9 @@ func streamHistory(r *hx.Rng, cfs []*cfile, bs *builtSet) {
 					if stale {
 						cls += ":stalecache"
 					}
+					if hc.ext[j] != "" && !stale {
+						cls += hc.ext[j]
+					}
 					fail(what, cs+" at op "+strconv.Itoa(j), "as for a fresh deep copy", outs[min(j, len(outs)-1)], cls)
 				}
 				if hc.qAt >= 0 && j >= hc.qAt {
@@ -282,6 +298,16 @@ func streamHistory(r *hx.Rng, cfs []*cfile, bs *builtSet) {
 			g := "0"
 			if google {
 				g = "1"
+			}
+			extOutside := ""
+			for _, e := range hc.ext {
+				if e != "" {
+					extOutside = e
+				}
+			}
+			if extOutside != "" {
+				sink.Count("outside-model" + extOutside)
+				continue
 			}
 			sink.Add("history:"+bv.V.Name(), fmt.Sprintf("G HI@%s %s %d %s %s", bv.V.Name(), hc.c.Term, hc.c.Idx[hc.c.relName(hc.md)], g, strings.Join(hc.toks, " ")),
 				strings.Join(implToks, " "), len(hc.toks) >= 2)
@@ -354,4 +380,13 @@ func stripNegZero(m protoreflect.Message) {
 		}
 		return true
 	})
+}
+
+func fileHasExt(c *cfile) bool {
+	for _, m := range c.F.AllMessages() {
+		if m.ExtRange {
+			return true
+		}
+	}
+	return false
 }
